@@ -288,6 +288,21 @@ def Col.asArray (c : Col) (mv : Option Str) : List Str :=
     | some x => x
     | none => if m == 1 then sDot else sQm) c.data c.mask
 
+/-- A column as `__eq__` sees it: the data array and the mask array, which may be absent. -/
+structure MCol where
+  data : List Str
+  mask : Option (List Nat)
+  deriving Repr, DecidableEq
+
+/-- `CIFColumn.__eq__` / `BinaryCIFColumn.__eq__`: data equal and masks equal (no mask ≠ some mask). -/
+def MCol.eq (a b : MCol) : Bool := a.data == b.data && a.mask == b.mask
+
+/-- the table the column stands for (`as_array()`) -/
+def MCol.render (c : MCol) : List Str :=
+  match c.mask with
+  | none => c.data
+  | some m => (Col.mk c.data m).asArray none
+
 def colStep (c : Col) : ColOp → Col × List Str
   | .arr mv => (c, c.asArray mv)
   | .data => (c, c.data)
